@@ -5,11 +5,15 @@ import os
 
 ROOT = os.path.dirname(os.path.dirname(os.path.abspath(__file__)))
 rows = []
-for name in sorted(os.listdir(os.path.join(ROOT, 'seeded'))):
+for name in sorted(os.listdir(os.path.join(ROOT, 'seeded')),
+                   key=lambda n: (n.split('-')[0], int(n.split('-')[1]))):
     m = json.load(open(os.path.join(ROOT, 'seeded', name, 'meta.json')))
     det = m.get('detected_by', {})
-    hit = sorted(k.split()[0] for k, v in det.items()
-                 if v['verdict'] == 'DETECTED')
+    # (with the clause of the first signature: a detection counts only
+    # when it names what the change breaks)
+    hit = sorted('%s (%s)' % (k.split()[0], (v.get('signatures') or [
+        '|?'])[0].split('|')[1]) for k, v in det.items()
+        if v['verdict'] == 'DETECTED')
     miss = sorted(k.split()[0] for k, v in det.items()
                   if v['verdict'] == 'MISSED')
     summary = (m.get('summary') or '').replace('\n', ' ').replace('|', '/')
@@ -18,7 +22,7 @@ for name in sorted(os.listdir(os.path.join(ROOT, 'seeded'))):
     rows.append('| %s | %s | %s | %s | %s |' % (
         name, ', '.join(m.get('files', []))[:60], summary,
         ', '.join(sorted(set(hit))) or '-',
-        ', '.join(sorted(set(miss) - set(hit))) or '-'))
+        ', '.join(sorted(set(miss) - {h.split()[0] for h in hit})) or '-'))
 print('| change | files | what it does | detected by (quick tier) | '
       'pointed at, not flagged |')
 print('|---|---|---|---|---|')
